@@ -102,6 +102,11 @@ class HistParametricModel(ParametricModelBaseMixin, HistContainer):
 
     # -- private methods
 
+    def _get_error_reference(self):
+        if self._pm_calculation_stale:  # relative errors refer to the current model values
+            self._recalculate()
+        return super(HistParametricModel, self)._get_error_reference()
+
     def _recalculate(self):
         # don't use parent class setter for 'data' -> set directly
         self._data[1:-1] = self._bin_evaluation_method()
